@@ -304,9 +304,12 @@ def c08(lines, out):
     if any(r.op.split()[0] == 'burst' for r in tr.recs):
         return v
     told, got, pend = {}, {}, {}
+    behind = {}      # module -> payloads told to it after an accepted pill: they are behind it in the mailbox, never to be seen
     for kind, inv, r in tr.events:
         t = r.op.split()
         if kind == 'R':
+            if t[0] == 'tell' and r.result == '0' and t[2] in pend:
+                behind.setdefault(t[2], set()).add(t[3])
             if t[0] == 'tell' and r.result == '0' and r.dump:
                 _, mods = parse_dump(r.dump)
                 if mods.get(t[2], {}).get('state') == 'R':
@@ -318,21 +321,31 @@ def c08(lines, out):
                 _, mods = parse_dump(r.dump)
                 for h, m in mods.items():
                     if m['state'] in ('S', 'Z', 'I'):
-                        told.pop(h, None); pend.pop(h, None)
+                        told.pop(h, None); pend.pop(h, None); behind.pop(h, None)
+                cx, _ = parse_dump(r.dump)
+                px, _ = parse_dump(r.prev_dump) if r.prev_dump else ({'state': None}, None)
+                if px['state'] == 'loop' and cx['state'] != 'loop':
+                    # a loop stop leaves no mailbox content behind: RUNNING modules were flushed, the others' messages destroyed
+                    told.clear(); pend.clear(); behind.clear()
         else:
             cb, hd, h, stt, evs = parse_invoke(inv)
             if cb == 'on_evt':
                 for k, f in evs:
                     if k == 'ps':
                         got.setdefault(h, set()).add(f[2])
-            if cb == 'on_stop' and h in pend and t[0] in ('dispatch', 'loop') and h not in stashers:
+                        # (not judged for a dispatch issued from inside a callback: the handler run by the pill's own flush
+                        # may re-enter the loop before the module is stopped)
+                        if f[2] in behind.get(h, ()) and t[0] != 'unstash' and h not in stashers and r.depth == 0:
+                            v.append(('after_pill', '%s was handed %s, which was told to it after a poison pill it had accepted' % (h, f[2])))
+            # (a stop callback that follows a refusing start callback of the same module in the same call is the refusal's)
+            refusal = any(parse_invoke(i2)[0] == 'on_start' and parse_invoke(i2)[2] == h and not val for (i2, val) in r.cbrets)
+            if cb == 'on_stop' and h in pend and t[0] in ('dispatch', 'loop') and h not in stashers and not refusal:
                 missing = [p for p in pend[h] if p not in got.get(h, set())]
                 if missing:
                     v.append(('pill_after_earlier', 'the pill stopped %s although %s, told to it before the pill, were never handed to it' % (h, ' '.join(missing))))
             if cb in ('on_stop', 'on_start'):
                 # a stop destroys the mailbox, a start makes a new one: nothing told before is pending any more
-                told.pop(h, None); pend.pop(h, None)
-                pend.pop(h, None); told.pop(h, None)
+                told.pop(h, None); pend.pop(h, None); behind.pop(h, None)
     return v
 
 
